@@ -86,7 +86,25 @@ Proof.
   - destruct (get_contracts (m_body src)) as [|e rest].
     + cbn. destruct (exec_body s src []); intro H; inversion H; reflexivity.
     + cbn. match goal with |- context [match ?x with inl _ => _ | inr _ => _ end] => destruct x end.
-      * destruct (exec_body s src l); intro H; inversion H; reflexivity.
+      * destruct (exec_body s src _); intro H; inversion H; reflexivity.
       * intro H; inversion H; reflexivity.
   - cbn. destruct (exec_body s src []); intro H; inversion H; reflexivity.
+Qed.
+
+(* enforcement: a single supported declaration, loader installed, contracts enabled: the module body runs under exactly those contracts;
+   a module that prints under a declaration that forbids stdout fails to import and is not registered; while contracts are
+   disabled the declaration is inert (the contracts are ordinary runtime contracts over exec_module) *)
+Theorem declared_enforced s name src e c :
+  active s = true -> get_contracts (m_body src) = [e] -> exec_contract e = CSome c ->
+  import_module s name src =
+    (let r := exec_body s src (if enabled s then [c] else []) in
+     match r with IOk => ({| meta_path := meta_path s; enabled := enabled s; loaded := name :: loaded s |}, IOk) | x => (s, x) end).
+Proof. intros Ha Hg He. unfold import_module. rewrite Ha, Hg. cbn. rewrite He. cbn. reflexivity. Qed.
+Theorem print_under_pure_fails s name src e :
+  active s = true -> enabled s = true -> get_contracts (m_body src) = [e] -> exec_contract e = CSome KPure ->
+  run_time_call s src = None -> m_prints src = true ->
+  import_module s name src = (s, IExc "SilentContractError").
+Proof.
+  intros Ha Hen Hg He Hr Hp. rewrite (declared_enforced s name src e KPure Ha Hg He). rewrite Hen. cbv zeta.
+  unfold exec_body. rewrite Hr, Hp. reflexivity.
 Qed.
